@@ -87,7 +87,7 @@ def stats(raw):
 
 
 e2check.run(dict(
-    prop='C20', model='mpi', harness='e2/mpi.cpp', bin='e2_mpi', props=['C20'], variant='mpi', cc_extra=mpi_flags(),
+    prop='C20', model='mpi', harness='e2/mpi.cpp', bin='e2_mpi', props=['C20', 'C20t'], variant='mpi', cc_extra=mpi_flags(),
     runs=runs, extra_runs=extra_runs, nontrivial=nontrivial, stats=stats, par=3, timeout_s=600,
     rule='self-addressed MPI_Isend/MPI_Irecv pairs (1 B .. 4 MB, up to 512 pairs outstanding, 2-4 submitter tasks, 1-2 '
          'start_polling/stop_polling rounds) through transform_mpi on the live runtime for every handler method '
